@@ -83,10 +83,40 @@ theorem chars_slice_no_panic (dbg : Bool) (s : Str) (i j : U64) : bind_StringCha
       | ok v => simp
       | panic => exact absurd hr h
 
-/-- `StringLines::slice` indexes with `&s[start_idx..end_idx]`; both offsets are
-    0, an offset just after a newline, or the string's length, taken in
-    ascending order — always char boundaries.  (Over the hand model of the two
-    `for` loops, `StringLines_slice_model`, tied by correspondence.) -/
+/-- `StringLines::slice`, transliterated statement by statement (its two skip/take loops read as
+    `Str.advanceR`, the newline-offset iterator named): it indexes with `&s[start_idx..end_idx]`; both
+    offsets are 0, an offset just after a newline, or the string's length, taken in ascending order —
+    always char boundaries — so the index expression cannot panic, for every string and all `i`, `j`
+    (reversed ranges and out-of-range line numbers included: `checked_sub` / a dry iterator answer `None`). -/
+theorem lines_slice_inner_no_panic (dbg : Bool) (s : Str) (i j : USz) : StringLines_slice dbg s i j ≠ .panic := by
+  unfold StringLines_slice RQ.bind
+  cases RInt.checked_sub j i with
+  | none => simp
+  | some num =>
+    simp only []
+    have h0 : Str.Good s.chars (Str.byteLenL s.chars) 0 (Str.afterNewlinesFrom 0 s.chars) := by
+      have := Str.afterNewlines_good [] s.chars 0 ⟨0, by simp, by simp [Str.byteLenL]⟩ (by simp [Str.byteLenL])
+      simpa [Str.byteLenL] using this
+    have hub : Str.isB s.chars (Str.byteLenL s.chars) := ⟨s.chars.length, Nat.le_refl _, by simp⟩
+    by_cases he : s.ends_with_nl <;> simp only [he, Str.advanceR, Str.after_newlines, Str.chain_opt] <;>
+    (cases h1 : Str.advance (Str.afterNewlinesFrom 0 s.chars) (ToOff.toOff i - ToOff.toOff (0 : Nat)) 0 with
+     | none => simp
+     | some p =>
+       obtain ⟨start_idx, iter⟩ := p
+       have hg1 := Str.advance_good _ _ _ _ _ h0 h1
+       have hg2e : Str.Good s.chars (Str.byteLenL s.chars) start_idx (iter ++ [s.byteLen]) := by
+         simpa [Str.byteLen] using Str.good_append iter start_idx hg1.2 hub
+       by_cases hn : num = 0
+       · simp [hn, REq.eq]
+       · simp [hn, REq.eq]
+         split
+         · rename_i a h2
+           have hg3 := Str.advance_good _ _ _ a.fst a.snd (by first | exact hg1.2 | exact hg2e) h2
+           obtain ⟨t, ht⟩ := Str.range_isB s.chars start_idx a.fst hg1.2.isB hg3.2.isB hg3.1
+           have : Str.index_range s start_idx a.fst = .ok t := ht
+           simp [this]
+         · simp)
+
 theorem lines_slice_no_panic (dbg : Bool) (s : Str) (i j : U64) : bind_StringLines_slice dbg s i j ≠ .panic := by
   unfold bind_StringLines_slice RQ.bind
   cases RInt.try_into i with
@@ -95,9 +125,9 @@ theorem lines_slice_no_panic (dbg : Bool) (s : Str) (i j : U64) : bind_StringLin
     cases RInt.try_into j with
     | none => simp
     | some j' =>
-      have h := lines_slice_model_no_panic s i' j'
-      simp only [StringLines_slice]
-      cases hr : StringLines_slice_model s i' j' with
+      have h := lines_slice_inner_no_panic dbg s i' j'
+      simp only []
+      cases hr : StringLines_slice dbg s i' j' with
       | ok v => simp
       | panic => exact absurd hr h
 
@@ -229,6 +259,15 @@ omit [Target] in
 example : @RawList_get t64 true (@RawListS.mk t64 ⟨BitVec.ofNat 64 (2 ^ 63)⟩ ⟨BitVec.ofNat 64 3⟩ ⟨BitVec.ofNat 64 4⟩)
     (⟨BitVec.ofNat 64 2⟩ : @USz t64) = .panic := by decide
 
+-- non-vacuity of the line-slice theorems: lines 1..2 of "a\nb\n" are "b\n"; a reversed range and a line
+-- number past the end answer `None`
+omit [Target] in
+example : @StringLines_slice t64 false ⟨['a', '\n', 'b', '\n']⟩ ⟨BitVec.ofNat 64 1⟩ ⟨BitVec.ofNat 64 2⟩ = .ok (some ⟨['b', '\n']⟩)
+    ∧ @StringLines_slice t64 false ⟨['a', '\n', 'b', '\n']⟩ ⟨BitVec.ofNat 64 2⟩ ⟨BitVec.ofNat 64 1⟩ = .ok none
+    ∧ @StringLines_slice t64 false ⟨['a', '\n', 'b']⟩ ⟨BitVec.ofNat 64 1⟩ ⟨BitVec.ofNat 64 3⟩ = .ok none
+    ∧ @StringLines_slice t64 false ⟨['a', '\n', 'b']⟩ ⟨BitVec.ofNat 64 1⟩ ⟨BitVec.ofNat 64 2⟩ = .ok (some ⟨['b']⟩) := by
+  decide
+
 /-! ### `List.join`: no size arithmetic, no panic — for every list, the empty one included -/
 
 omit [Target] in
@@ -247,30 +286,84 @@ omit [Target] in
 theorem join_singleton (dbg : Bool) (a sep : Str) : bind_ErasedList_join dbg [a] sep = .ok a := by
   simp [bind_ErasedList_join, Str.join, List.intercalate]
 
+/-! ### the substring family: `contains`, `starts_with`, `ends_with`, `strip_prefix`, `strip_suffix`, `split`
+
+Transliterated from `RotoString::*` (src/value/string.rs) and their bindings.  On this tree each is one
+call of the `str` method of the same name; a replacement written with byte offsets (`len()`,
+`checked_sub`, `split_at`, `is_char_boundary`, `&s[a..b]`) is transliterated into checked code
+(`Str.split_at` panics off a character boundary) and these theorems then have to be proved for it. -/
+
+omit [Target] in
+/-- for ALL subjects and needles — multi-byte subjects with a needle whose length puts
+    `len - needle.len()` inside a character included — the six built-ins return a value. -/
+theorem substring_builtins_no_panic (dbg : Bool) (s t : Str) :
+    bind_RotoString_contains dbg s t ≠ .panic ∧ bind_RotoString_starts_with dbg s t ≠ .panic ∧
+    bind_RotoString_ends_with dbg s t ≠ .panic ∧ bind_RotoString_strip_prefix dbg s t ≠ .panic ∧
+    bind_RotoString_strip_suffix dbg s t ≠ .panic ∧ bind_RotoString_split dbg s t ≠ .panic := by
+  simp [bind_RotoString_contains, bind_RotoString_starts_with, bind_RotoString_ends_with,
+    bind_RotoString_strip_prefix, bind_RotoString_strip_suffix, bind_RotoString_split,
+    RotoString_contains, RotoString_starts_with, RotoString_ends_with, RotoString_strip_prefix,
+    RotoString_strip_suffix, RotoString_split]
+
+omit [Target] in
+/-- …and they are the `str` functions: `strip_suffix` answers `None` exactly when the subject does
+    not end with the suffix (never a panic, wherever `len - suffix.len()` falls). -/
+theorem strip_suffix_is_std (dbg : Bool) (s t : Str) :
+    bind_RotoString_strip_suffix dbg s t = .ok (Str.strip_suffix s t)
+    ∧ bind_RotoString_strip_prefix dbg s t = .ok (Str.strip_prefix s t)
+    ∧ (Str.strip_suffix s t = none ↔ Str.ends_with s t = false) := by
+  refine ⟨?_, ?_, ?_⟩
+  · simp [bind_RotoString_strip_suffix, RotoString_strip_suffix]
+  · simp [bind_RotoString_strip_prefix, RotoString_strip_prefix]
+  · unfold Str.strip_suffix; split <;> simp_all
+
+-- non-vacuity, and the class a byte-offset replacement gets wrong: "é" (2 bytes) against "x":
+-- `len - 1 = 1` is inside the character; the built-in answers `None`, `split_at` there panics
+omit [Target] in
+example : bind_RotoString_strip_suffix false ⟨['é']⟩ ⟨['x']⟩ = .ok none
+    ∧ bind_RotoString_strip_suffix false ⟨['a', 'é']⟩ ⟨['é']⟩ = .ok (some ⟨['a']⟩)
+    ∧ Str.split_at (⟨['é']⟩ : Str) (1 : Nat) = .panic
+    ∧ Str.split_at (⟨['a', 'é']⟩ : Str) (1 : Nat) = .ok (⟨['a']⟩, ⟨['é']⟩) := by decide
+
 /-! ### the panic surface of *every* binding and of every `string.rs` method -/
 
+/-- what counts as a panic site: the syntactic constructs, a call of a std function that is
+    documented to panic on some arguments (`split_at`, `remove`, `with_capacity`, `sum`, `repeat` …)
+    and a call of any function the translator's table of TOTAL std functions does not list.
+    `lock_unwrap` (`m.lock().unwrap()`: fails only on a poisoned mutex, assumed away as in C10C),
+    casts and `unsafe` blocks are recorded but are not panic sites. -/
 def panics : Risk → Bool
-  | .unwrap | .expect | .index | .panic_macro | .arith => true
-  | .cast | .unsafe_ => false
+  | .unwrap | .expect | .index | .panic_macro | .arith | .partial_call | .unknown_call => true
+  | .cast | .unsafe_ | .lock_unwrap => false
 
 omit [Target] in
 /-- Of all functions registered by `basic.rs`'s `library!` blocks (the macro
     bodies for the float and `to_string` families included), the only body
-    containing `unwrap`/`expect`/indexing/a panic macro/integer arithmetic is
-    `Prefix.new`.  A new `unwrap` in any binding breaks this theorem. -/
+    containing `unwrap`/`expect`/indexing/a panic macro/integer arithmetic, a call of a std
+    function documented to panic on some arguments, or a call of a function that is not in the
+    translator's table of total functions, is `Prefix.new`.  A new `unwrap` — or a new
+    `split_at`/`with_capacity`/`.sum()` — in any binding breaks this theorem. -/
 theorem binding_panic_surface (b : Binding) : (b.surface.any panics = true) ↔ b = .Prefix_new := by
   cases b <;> decide
 
 omit [Target] in
-/-- In `string.rs`, only `StringChars::slice` and `StringLines::slice` contain
-    a construct that can panic (their `&s[a..b]`; `byte + 1`): exactly the two
-    covered by `chars_slice_no_panic` and `lines_slice_no_panic`. -/
+/-- In `string.rs` and `string_buf.rs`, only `StringChars::slice` and `StringLines::slice`
+    contain a construct that can panic (their `&s[a..b]`; `byte + 1`) — exactly the two covered by
+    `chars_slice_no_panic` and `lines_slice_no_panic` — and only `RotoString::repeat` calls a std
+    function documented to panic (`str::repeat`: capacity overflow, the documented memory limit,
+    characterised by `repeat_limit_iff`).  EVERY other call in every method is to a function of the
+    translator's table of total std functions or to another method of these files: a hand-written
+    replacement that goes through `split_at`, `remove`, `String::with_capacity`, an index … breaks
+    this theorem. -/
 theorem strfn_panic_surface (f : StrFn) :
-    (f.surface.any panics = true) ↔ (f = .StringChars_slice ∨ f = .StringLines_slice) := by
+    (f.surface.any panics = true) ↔
+      (f = .StringChars_slice ∨ f = .StringLines_slice ∨ f = .RotoString_repeat) := by
   cases f <;> decide
 
 example : (Binding.Prefix_new).surface.any panics = true := by decide
 example : Binding.all.length ≥ 60 := by decide
+example : StrFn.all.length ≥ 37 ∧ (StrFn.StringBuf_push_char).surface = [.lock_unwrap]
+    ∧ (StrFn.RotoString_repeat).surface = [.partial_call] := by decide
 
 /-! ### summary -/
 
